@@ -1,6 +1,7 @@
 import Driver.Loop
 import PytypeModel.Blocks.Order
 import PytypeModel.Blocks.WF
+import PytypeModel.Blocks.SetupExcept
 open PytypeModel.Blocks
 open PytypeModel.Generated.OpcodeTable
 
@@ -84,12 +85,53 @@ def parseGraph (ws : List Nat) : Option (List Nat × List (Nat × Nat)) :=
     | [] => none
   | [] => none
 
+/-! `X n m (off cls argval line)×n (start stop target lasti)×m` (byte offsets)
+     → `ok off:cls:argval:pre:push:pop …|evenOffs=… stopsOnOps=… startsPos=…` (doubled offsets) or `err <PythonException>|…`
+   (opcodes._add_setup_except followed by sorted(offset_to_op.items())) -/
+def parsePre : Nat → List Nat → Option (List PreOp × List Nat)
+  | 0, l => some ([], l)
+  | n + 1, off :: cls :: argval :: line :: rest =>
+    match parsePre n rest with
+    | some (rs, l) => some ({ off := off, cls := cls, argval := argval, line := line } :: rs, l)
+    | none => none
+  | _, _ => none
+
+def parseEntries : Nat → List Nat → Option (List ExcEntry × List Nat)
+  | 0, l => some ([], l)
+  | n + 1, a :: b :: c :: d :: rest =>
+    match parseEntries n rest with
+    | some (rs, l) => some ({ start := a, stop := b, target := c, lasti := d != 0 } :: rs, l)
+    | none => none
+  | _, _ => none
+
+
+def runX (ws : List Nat) : String :=
+  match ws with
+  | n :: m :: rest =>
+    match parsePre n rest with
+    | none => "bad-op"
+    | some (ops, rest2) =>
+      match parseEntries m rest2 with
+      | none => "bad-op"
+      | some (entries, _) =>
+        let prem := s!"evenOffs={b01 (evenOffs ops)} stopsOnOps={b01 (stopsOnOps ops entries)} startsPos={b01 (startsPos ops entries)}"
+        match addSetupExcept ops entries with
+        | .error e => s!"err {e.toString}|{prem}"
+        | .ok xs =>
+          "ok " ++ " ".intercalate (xs.map fun x =>
+            s!"{x.off}:{x.cls}:{x.argval}:{optS x.pre}:{b01 x.push}:{b01 x.pop}") ++ "|" ++ prem
+  | _ => "bad-op"
+
 def stepC16 (_ : Unit) (line : String) : Unit × Option String :=
   match line.splitOn " " with
   | ["names"] => ((), some (" ".intercalate (table.map (·.name))))
   | "P" :: ws =>
     match Driver.nats ws with
     | some ns => ((), some (runP ns))
+    | none => ((), some "bad-op")
+  | "X" :: ws =>
+    match Driver.nats ws with
+    | some ns => ((), some (runX ns))
     | none => ((), some "bad-op")
   | "ON" :: ws =>
     match (Driver.nats ws).bind parseGraph with
